@@ -195,6 +195,11 @@ let gen_schedule (cfg : sstate wconfig) (w0 : mworld) (rng : Random.State.t) (o 
   let continue = ref true in
   (* a thread is biased to keep running for a while: makes long stretches and tight races *)
   let last = ref (-1) in
+  (* scheduling style of this scenario: 0 = uniform with stickiness; 1 = eager store: whenever a
+     thread of the store itself (reducer, channeled thread, worker) can run it mostly does, so
+     that every action is completely processed before the clients go on - the near-sequential
+     region where stale caches and skipped publications show *)
+  let style = if Random.State.int rng 100 < 35 then 1 else 0 in
   while !continue && !steps < o.max_steps do
     incr steps;
     let all = tids !w in
@@ -220,8 +225,12 @@ let gen_schedule (cfg : sstate wconfig) (w0 : mworld) (rng : Random.State.t) (o 
              emit (Printf.sprintf "P %d blocked" t);
              committed := Some t; incr probes
            end else begin
+             let own = List.filter (fun t -> t >= 100) en in
              let t =
-               if List.mem !last en && Random.State.int rng 100 < 55 then !last
+               if style = 1 && own <> [] && Random.State.int rng 100 < 85 then
+                 (if List.mem !last own && Random.State.int rng 100 < 70 then !last
+                  else List.nth own (Random.State.int rng (List.length own)))
+               else if List.mem !last en && Random.State.int rng 100 < 55 then !last
                else List.nth en (Random.State.int rng (List.length en)) in
              last := t;
              match step cfg !w (n_of_int t) with
